@@ -11,11 +11,19 @@
    clusters of gs; [sidx] = any permutation of the indices (the theorems do not depend on
    how argsort orders equal norms).
 
-   NOT proved: a Coq model of ismember_columns / intersect_sets (oracle only); the float
-   evaluation of the comparisons (trusted on the generated dyadic data). *)
+   Second part (PP.Model.C34b / PP.Proofs.C34b): ismember_columns and intersect_sets on
+   integer columns of any sign.  External calls are parameters with their contract as
+   hypothesis: np.argsort inside ismember_columns ([sort_contract]: some permutation of
+   range(len b) along which the keys are non-decreasing — numpy's default sort is not
+   stable) and scipy's KD-tree ball query inside intersect_sets ([query_contract]).
+
+   NOT proved: the float evaluation of the comparisons (trusted on the generated dyadic
+   data); that np.unique(axis=1) orders columns lexicographically (only that it is
+   duplicate free with the same members is used; the order is checked by the tie). *)
 From Coq Require Import List ZArith Arith Lia Permutation Sorted.
 Import ListNotations.
-From PP Require Import Model.C34 Proofs.C34.
+From PP Require Model.C46.
+From PP Require Import Model.C34 Proofs.C34 Model.C34b Proofs.C34b.
 
 (* Key lemma (reverse triangle inequality without square roots, via Cauchy-Schwarz):
    two points whose squared norms lie on different sides of a norm-cluster boundary
@@ -150,3 +158,115 @@ Proof.
     + vm_compute. repeat split; discriminate.
     + vm_compute. reflexivity.
 Qed.
+
+(* ---- the same two theorems for the model's OWN stable argsort (its sortedness and
+   permutation property are proved, no hypothesis on the index vector is left) ---- *)
+Theorem C34_one_per_cluster_partial_own_sort :
+  forall (t : Z) (pts : list pt),
+    (0 < t)%Z -> trans_in_range t pts ->
+    cross_free t pts [] (norm_clusters false t (keyn pts) (sort_by_norm pts)) ->
+    match uniquify t pts with
+    | (u, n2o, o2n) =>
+        u = map (pnt pts) n2o /\
+        StronglySorted lt n2o /\
+        (forall m, In m n2o ->
+                   m < length pts /\
+                   forall j, j < length pts -> cl t pts j m -> m <= j) /\
+        length o2n = length pts /\
+        (forall i, i < length pts ->
+                   nth i o2n 0 < length n2o /\ cl t pts (nth (nth i o2n 0) n2o 0) i)
+    end.
+Proof. exact uniquify_model_guarded. Qed.
+Print Assumptions C34_one_per_cluster_partial_own_sort.
+
+Theorem C34_one_per_cluster_chained_own_sort :
+  forall (t : Z) (pts : list pt) (d : nat),
+    (0 < t)%Z -> Forall (fun p => length p = d) pts -> trans_in_range t pts ->
+    match uniquify_with true t pts (sort_by_norm pts) with
+    | (u, n2o, o2n) =>
+        u = map (pnt pts) n2o /\
+        StronglySorted lt n2o /\
+        (forall m, In m n2o ->
+                   m < length pts /\
+                   forall j, j < length pts -> cl t pts j m -> m <= j) /\
+        length o2n = length pts /\
+        (forall i, i < length pts ->
+                   nth i o2n 0 < length n2o /\ cl t pts (nth (nth i o2n 0) n2o 0) i)
+    end.
+Proof. exact uniquify_model_chained. Qed.
+Print Assumptions C34_one_per_cluster_chained_own_sort.
+
+(* ---- ismember_columns(a, b, sort): for ANY integer columns (negative entries included),
+   either value of [sort] (columns compared after sorting their entries) and ANY admissible
+   argsort result: the membership vector equals brute-force column comparison, and the
+   index vector has one entry per member column of a, each pointing to an equal column
+   of b. ---- *)
+Theorem C34_ismember_bruteforce :
+  forall (srt : bool) (a b : list pt) (sort_ind : list nat),
+    let A := map (normc srt) a in
+    let B := map (normc srt) b in
+    sort_contract (ind_b_of srt a b) sort_ind ->
+    fst (ismember_with srt a b sort_ind) = map (fun x => existsb (Model.C46.ceqb x) B) A /\
+    Forall2 (fun x k => k < length b /\ nth k B [] = x)
+            (filter (fun x => existsb (Model.C46.ceqb x) B) A)
+            (snd (ismember_with srt a b sort_ind)).
+Proof. exact ismember_correct. Qed.
+Print Assumptions C34_ismember_bruteforce.
+
+(* the argsort contract is satisfiable: the model's stable argsort meets it *)
+Theorem C34_ismember_stable_argsort_admissible :
+  forall (srt : bool) (a b : list pt),
+    sort_contract (ind_b_of srt a b) (stable_sort_ind srt a b).
+Proof. exact stable_sort_contract. Qed.
+Print Assumptions C34_ismember_stable_argsort_admissible.
+
+(* ---- intersect_sets(a, b, tol), tol = tol2/2: for any ball query meeting its contract,
+   a_in_b, ia (sorted, duplicate free) and ib (sorted, duplicate free) are exactly what
+   brute-force comparison of all column pairs gives; the match lists are passed on. ---- *)
+Theorem C34_intersect_bruteforce :
+  forall (tol2 : Z) (query : list pt -> list pt -> list (list nat)) (a b : list pt),
+    query_contract tol2 query a b ->
+    match intersect query a b with
+    | (ia, ib, a_in_b, inter) =>
+        inter = query a b /\
+        a_in_b = map (fun p => existsb (within tol2 p) b) a /\
+        StronglySorted lt ia /\
+        (forall i, In i ia <-> i < length a /\ existsb (within tol2 (nth i a [])) b = true) /\
+        StronglySorted lt ib /\
+        (forall j, In j ib <->
+                   j < length b /\ existsb (fun p => within tol2 p (nth j b [])) a = true)
+    end.
+Proof. exact intersect_correct. Qed.
+Print Assumptions C34_intersect_bruteforce.
+
+(* the query contract is satisfiable: brute force (the model's executable query) meets it *)
+Theorem C34_bruteforce_query_meets_contract :
+  forall (tol2 : Z) (a b : list pt), query_contract tol2 (bf_query tol2) a b.
+Proof. exact bf_query_contract. Qed.
+Print Assumptions C34_bruteforce_query_meets_contract.
+
+(* well-separated guard: if the columns of b are pairwise more than 2*tol apart, every
+   column of a matches at most one column of b (what SparseNdArray.get's ravel relies on) *)
+Theorem C34_intersect_single_match :
+  forall (tol2 : Z) (query : list pt -> list pt -> list (list nat)) (a b : list pt) (d : nat),
+    query_contract tol2 query a b ->
+    Forall (fun c => length c = d) a -> Forall (fun c => length c = d) b ->
+    (forall j j', j < length b -> j' < length b -> j <> j' ->
+                  (tol2 * tol2 < dist2 (nth j b []) (nth j' b []))%Z) ->
+    forall i, i < length a -> length (nth i (query a b) []) <= 1.
+Proof. exact intersect_single_match. Qed.
+Print Assumptions C34_intersect_single_match.
+
+(* Non-vacuity: signed columns that collide under the positional encoding base max+1
+   ([3,0] and [-1,1], max entry 3), with and without sorting of the entries; and an
+   intersection with tol = 1/2 and 3/2. *)
+Example C34_nonvacuous_membership :
+  let a := [[3; 0]; [-1; 1]; [0; 3]; [2; -2]]%Z in
+  let b := [[-1; 1]; [1; -1]; [-1; 1]; [0; 5]]%Z in
+  ismember false a b = ([false; true; false; false], [0]) /\
+  ismember true a b = ([false; true; false; false], [0]) /\
+  ismember true [[1; -1]; [3; 0]]%Z [[0; 3]; [-1; 1]]%Z = ([true; true], [1; 0]) /\
+  intersect (bf_query 1) a b = ([1], [0; 2], [false; true; false; false], [[]; [0; 2]; []; []]) /\
+  intersect (bf_query 3) [[0; 0]; [5; 5]]%Z [[1; 0]; [0; -1]; [3; 3]]%Z
+  = ([0], [0; 1], [true; false], [[0; 1]; []]).
+Proof. repeat split; vm_compute; reflexivity. Qed.
